@@ -55,12 +55,33 @@ def check(case):
         solver = make_tracing_solver(problem, params)
     except Exception as e:
         return excluded(f"build:{type(e).__name__}", labels)
-    out = run_solve(problem, params, x0, y0, solver=solver)
+    # the statement speaks about "a solve": it is checked for the first solve and for a second solve
+    # on the same Solver object (state left over from the first run must not enter the second)
+    total = 0
+    verdict = None
+    for which in ("first solve", "second solve on the same Solver"):
+        out = run_solve(problem, params, x0, y0, solver=solver)
+        res = _judge(out, solver, params, pen, labels, which)
+        total += max(len(out.trials), 1)
+        if res["status"] == "violation":
+            res["sub"] = total
+            return res
+        if verdict is None:
+            verdict = res
+    verdict["sub"] = total
+    verdict["labels"] = verdict["labels"] + ["resolved_on_same_solver"]
+    return verdict
+
+
+def _judge(out, solver, params, pen, labels, which):
+    labels = list(labels)
     trials = out.trials
     T = len(trials)
+    rho_in_cb = list(solver.rho_in_cb)
 
     def V(clause, msg):
-        return violation(f"{clause}|{pen}", msg, labels, sub=max(T, 1))
+        tag = "" if which == "first solve" else "|resolve"
+        return violation(f"{clause}|{pen}{tag}", f"[{which}] {msg}", labels, sub=max(T, 1))
 
     rhos = [t.rho for t in trials]
     for t, r in enumerate(rhos):
@@ -68,7 +89,7 @@ def check(case):
             return V("rho-not-positive", f"step {t} used rho={r!r}")
         if t and r < rhos[t - 1]:
             return V("rho-decreased", f"rho went from {rhos[t-1]!r} to {r!r} at step {t}")
-    for k, r in enumerate(solver.rho_in_cb):
+    for k, r in enumerate(rho_in_cb):
         if r != trials[k].rho:
             return V("solver-rho-in-callback", f"solver.rho={r!r} inside callback #{k}, step used rho={trials[k].rho!r}")
     if pen == "Constant":
